@@ -5,6 +5,80 @@ CAFS_TRUSTED = ["BLAKE2b: the Lean implementation (Model/Blake2b.lean) equals mi
                 "harness/internal/memstore as the blob store contract"]
 
 PROPS = {
+    "C13": {
+        "sub": "c13",
+        "lean_modules": ["DatamonVerif.Props.C13", "DatamonVerif.Props.C14"],
+        "trivial": r"^(unlock|drop)$",
+        "timeout_quick": 900, "timeout_thorough": 3000, "thorough_seeds": 1,
+        "level_text": "Proof (partial): C13_purge_safe_partial — for EVERY history of uploads, bundle/repo deletions and squashes, index builds "
+                      "(any chunk size >= 1, any interleaving of entry scans and ticker chunk uploads, any transient chunk Put failures, killed "
+                      "after any chunk write leaving arbitrary chunks behind, resumed any number of times), index drops and delete-unused runs "
+                      "(complete or interrupted, any transient GetAttr failures) in which delete-unused runs on an index whose last build "
+                      "reported success and no upload made after a successful build re-uses a blob that is neither indexed nor newer than "
+                      "the index, every committed bundle keeps all its root and leaf blobs. C13_resume_covers (a resumed build indexes every "
+                      "scanned key whatever chunks the killed run left), C13_retry_idempotent. The full statement C13_purge_safe_full is "
+                      "REFUTED by C13_neg_dedup_no_touch (known finding C13-dedup-no-touch: cafs does not touch a deduplicated blob). The "
+                      "theorems are stated for the configuration Cfg.code computed from facts regenerated from purge.go on every run "
+                      "(C13_code_cfg by decide); three further defects were repaired (fix: commits) and keep a decide-checked negation witness.",
+        "level_note": "Partial: the clause 'every bundle whose upload started after the index' fails when that upload deduplicates against an orphaned old blob "
+                      "(recorded finding, replayed on the implementation on every run). Modelled, not verified: blob keys as numbers with the hygiene "
+                      "hypothesis wfEntries (a root determines its leaves, no root key is a leaf key: true of cafs unless BLAKE2b collides); one "
+                      "monotone clock shared by the process and the store (the harness keeps >= 3 ms between phases and records only order); pebble "
+                      "behaves like a sorted map; a store call is atomic; a crash is modelled in-process (every store call after the k-th chunk write "
+                      "returns a permanent error); uploads concurrent with an index build are outside the statement and not generated; backoff "
+                      "timing is not modelled (transient = finitely many failures). Trusted: Lean kernel, facts translator, harness, driver, memstore.",
+        "trusted": ["cockroachdb/pebble behind core.kvStore behaves like a sorted map with SetIfNotExists/Set",
+                    "harness/internal/c13store (fault and crash injection) and harness/internal/memstore (reference object store, wall-clock mode)"],
+        "assumptions": ["no BLAKE2b collision among the keys of a history (wfEntries)", "update times of the blob store and the purge process come from one monotone clock",
+                        "transient failures are finite: every retried call eventually succeeds within the backoff budget",
+                        "no upload runs concurrently with an index build (the property excludes them)"],
+        "rule": "one evaluation = one operation (upload, index build/resume, drop, delete-unused, download of one committed bundle) executed on the real "
+                "pkg/core code on the reference store with the real pebble KV and compared with the Lean model's prediction (ok/err class per command, "
+                "same/differs/fails per download); directed minimal histories of every repaired defect and the exhaustive kill-after-every-chunk-write "
+                "sweep come first, random histories after; distinct = distinct operation text",
+    },
+    "C14": {
+        "sub": "c14",
+        "lean_modules": ["DatamonVerif.Props.C14"],
+        "trivial": r"^(unlock|drop)$",
+        "timeout_quick": 900, "timeout_thorough": 3000, "thorough_seeds": 1,
+        "level_text": "Proof: C14_index_exact (for every chunk size n >= 1, every interleaving of entry scans and ticker driven chunk uploads and every "
+                      "sequence of transient Put failures the union of the uploaded chunks = roots + leaves of the scanned entries, every chunk has "
+                      "<= n keys, the until-a-chunk-adds-nothing loop ends with the whole KV uploaded; C14_index_exact_bundles, "
+                      "C14_index_schedule_independent), C14_deleteUnused_exact / C14_deleted_iff (deleted <=> present, not indexed, not newer than the "
+                      "index time; times unchanged), C14_lock_exclusive / C14_lock_one_winner (every interleaving of non-forced attempts: exactly the "
+                      "first succeeds, none while held; C14_lock_forced), all for Cfg.code computed from facts regenerated from purge.go on every run. "
+                      "The index chunks, the chunk sequence and the set of deleted blobs of the real code are compared with the model's on every run.",
+        "level_note": "Modelled, not verified: keys as numbers with wfEntries (no BLAKE2b collision between a root and a leaf key, a root determines its leaves); "
+                      "chunk size 0 is outside the theorem (C14_neg_chunk_size_zero: nothing is indexed; the CLI never passes 0); one lock attempt = one atomic "
+                      "create-if-absent Put (fact purgeLockNoOverwrite); the ticker driven chunk boundaries are compared as a set + size bound only. "
+                      "A rebuild used to keep the trailing chunks of a longer previous index (C14_neg_stale_chunks): repaired by a fix: commit. "
+                      "Corrupted root blobs (indexed without leaves by design) are outside the no-fault statement. Trusted: Lean kernel, facts translator, harness, driver, memstore.",
+        "trusted": ["cockroachdb/pebble behind core.kvStore behaves like a sorted map", "memstore Put with NoOverWrite is an atomic create-if-absent (GCS precondition)"],
+        "assumptions": ["no BLAKE2b collision among the keys of a history (wfEntries)", "index chunk size >= 1", "blob update times and the index time come from one monotone clock"],
+        "rule": "one evaluation = one operation (upload, index build, drop, delete-unused, concurrent or sequential lock acquisitions, unlock) executed on the real "
+                "pkg/core code and compared with the Lean model: exact sorted key list of all index chunk files, chunk-by-chunk sequence when the ticker is off, "
+                "size bound, exact set of deleted blobs, number of successful lock acquisitions; distinct = distinct operation text",
+    },
+    "C15": {
+        "sub": "c15",
+        "race": True,
+        "trivial": r"^never-trivial$",
+        "timeout_quick": 1500, "timeout_thorough": 3400,
+        "level_text": "Proof: for ANY number of programs of atomic store writes that are pairwise compatible (different keys, or the same "
+                      "value: content-addressed blobs, fresh bundle/split ids, distinct labels) and ANY interleaving, the final store "
+                      "answers every read like the sequential run (C15_noninterference, via C15_compatible_commute), so every operation's "
+                      "result is what it produces alone. Randomised concurrent workloads (2..16 goroutines, heavy content overlap: uploads, "
+                      "downloads, label sets, split uploads + commits) run under the Go race detector; every result is compared with the "
+                      "sequential Lean model of that operation (the C04 model). PARTIAL for the clause 'no data race occurs in the process': "
+                      "that is a statement about the Go memory model which no executable Lean model can exhibit; the race detector run is "
+                      "evidence attached to the correspondence run (a race report aborts the case and is reported as a violation), not a proof.",
+        "level_note": "Trusted: Lean kernel, harness+driver, memstore, the Go race detector (for the monitored clause only). One store call = one "
+                      "atomic step; goroutine interleaving inside one operation is covered by C02 (flush order) and C04 (arrival order).",
+        "trusted": CAFS_TRUSTED + ["Go race detector (evidence for the data-race clause, not a proof)"],
+        "assumptions": ["concurrent operations use fresh bundle / split ids and distinct label names (compatible footprints)",
+                        "the Found/duplicate flag legitimately depends on the interleaving and is not part of an operation's result"],
+    },
     "C06": {
         "sub": "c06",
         "trivial": r"^never-trivial$",
